@@ -35,6 +35,34 @@ func main() {
 		os.Exit(cmdProp(os.Args[2:]))
 	case "list":
 		os.Exit(cmdList())
+	case "lemmas":
+		os.Exit(cmdLemmas(os.Args[2:]))
+	case "sweep":
+		os.Exit(cmdSweep(os.Args[2:]))
+	case "specvectors":
+		v, err := load()
+		if err != nil {
+			fmt.Println("ENGINE-ERROR:", err)
+			os.Exit(2)
+		}
+		n, bad, first := specVectors(v)
+		fmt.Printf("RFC 9380 vectors evaluated against the contract-level specification: %d, mismatches %d %s\n", n, bad, first)
+		if bad > 0 || n == 0 {
+			os.Exit(1)
+		}
+		os.Exit(0)
+	case "isohom":
+		v, err := load()
+		if err != nil {
+			fmt.Println("ENGINE-ERROR:", err)
+			os.Exit(2)
+		}
+		e, nt, f, w := testIsoHom(v, 2000, 1)
+		fmt.Printf("iso_hom_chord: evaluated=%d with-hypotheses-true=%d false=%d %s\n", e, nt, f, w)
+		if f > 0 {
+			os.Exit(1)
+		}
+		os.Exit(0)
 	case "replay":
 		os.Exit(cmdReplay(os.Args[2:]))
 	}
